@@ -285,9 +285,9 @@ static void marshal_one_def(MarshalState *st, JanetFuncDef *def, int flags) {
     if (def->flags & JANET_FUNCDEF_FLAG_HASSYMBOLMAP)
         pushint(st, def->symbolmap_length);
     if (def->flags & JANET_FUNCDEF_FLAG_HASNAME)
-        marshal_one(st, janet_wrap_string(def->name), flags);
+        marshal_one(st, janet_wrap_string(def->name), flags + 1);
     if (def->flags & JANET_FUNCDEF_FLAG_HASSOURCE)
-        marshal_one(st, janet_wrap_string(def->source), flags);
+        marshal_one(st, janet_wrap_string(def->source), flags + 1);
 
     /* marshal constants */
     for (int32_t i = 0; i < def->constants_length; i++)
@@ -848,7 +848,7 @@ static const uint8_t *unmarshal_one_env(
         if (offset > 0) {
             Janet fiberv;
             /* On stack variant */
-            data = unmarshal_one(st, data, &fiberv, flags);
+            data = unmarshal_one(st, data, &fiberv, flags + 1);
             janet_asserttype(fiberv, JANET_FIBER, st);
             env->as.fiber = janet_unwrap_fiber(fiberv);
             /* Negative offset indicates untrusted input */
@@ -864,7 +864,7 @@ static const uint8_t *unmarshal_one_env(
             }
             env->offset = 0;
             for (int32_t i = 0; i < length; i++)
-                data = unmarshal_one(st, data, env->as.values + i, flags);
+                data = unmarshal_one(st, data, env->as.values + i, flags + 1);
         }
         env->length = length;
         *out = env;
@@ -1434,7 +1434,7 @@ static const uint8_t *unmarshal_one(
             }
             *out = janet_wrap_function(func);
             janet_v_push(st->lookup, *out);
-            data = unmarshal_one_def(st, data, &def, flags + 1);
+            data = unmarshal_one_def(st, data, &def, flags);
             /* The environment array was sized from the image; everything else indexes it by the definition */
             if (def->environments_length != len) {
                 janet_panicf("invalid function - expected %d environments, got %d", def->environments_length, len);
